@@ -13,7 +13,8 @@ RULE = ("noisy / non-equilibrium / ill-scaled arc tissues (vertex noise 1e-4..0.
         "interfaces, so the inversion path runs), two-frame series with random displacements (velocity right-hand side), "
         "shipped furrow fixtures (static and velocity); x method {default, lsq, lsq_linear (consistent only), fix_stress} x "
         "allow_negatives on/off. distinct = (family, equations, unknowns, method, allow_negatives, path, rhs mode); "
-        "non-trivial = at least one junction equation")
+        "non-trivial = at least one junction equation"
+        ' Added after the seeded rounds: angle-limited builds; the same assembled system solved again with another back-end.')
 MIN_DECISIVE = {"quick": 150, "thorough": 2500}
 REQUIRED_COUNTERS = ["post:solve", "kkt:checked", "hook:compared"]
 REQUIRED_HIST = {"any": ["path:inv", "path:inv->nnls-fallback", "path:lsq", "path:lsq_linear", "rhs:velocity", "rhs:static"]}
